@@ -21,7 +21,7 @@ func Parts() []mc.Part {
 	ps = append(ps, htlc.Parts("C13")()...)
 	ps = append(ps,
 		mc.ExplorePart("farm-creator-ops", farm.New(farm.Variant{Name: "creator-ops", Farmers: []string{"A", "B"}, StakeAmts: []int64{1, 3},
-			RPB: sdk.NewCoins(mc.C("eth", 3)), Total: sdk.NewCoins(mc.C("eth", 10)), Creator: true, Mode: "C13"}), 6, 8, false, rule),
+			RPB: sdk.NewCoins(mc.C("eth", 3)), Total: sdk.NewCoins(mc.C("eth", 10)), Creator: true, Mode: "C13"}), 6, 7, false, rule),
 		mc.ExplorePart("farm-two-denoms-future-start", farm.New(farm.Variant{Name: "two-denoms-future-start", Farmers: []string{"A"}, StakeAmts: []int64{2},
 			RPB: sdk.NewCoins(mc.C("eth", 2), mc.C("btc", 3)), Total: sdk.NewCoins(mc.C("eth", 7), mc.C("btc", 7)),
 			StartDelta: 2, Creator: true, Mode: "C13"}), 6, 8, false, rule),
